@@ -1,7 +1,7 @@
 (* C12 - protoc-gen-pico emits correct codecs for every supported schema. *)
 From Coq Require Import List ZArith Bool.
 From Pico Require Import Base.Res Base.Mach Wire.Wire Schema.Types Schema.Scalar Schema.Gen Schema.GenProofs gen.Schemas
-  Schema.Interp Ref.Ref Schema.EncSpec Schema.EncProgProofs Schema.TEnc.
+  Schema.Interp Ref.Ref Schema.EncSpec Schema.EncProgProofs Schema.TEnc Dec.Dec Dec.SafetyProofs Dec.TokenBridge Schema.Norm Schema.TDec Schema.RoundTrip.
 Import ListNotations.
 Open Scope Z_scope.
 
@@ -30,11 +30,28 @@ Theorem C12_encode_correct : forall fuel s progs idx fs un,
   pico_marshal fuel progs idx (fs, un) = Ok (ref_encode fuel s idx fs un).
 Proof. exact T_enc. Qed.
 
-(* PARTIAL (decode half): "for every wf schema the emitted codecs satisfy C01-C03, C06, C08" is decided per run:
-   schemas drawn from a grammar over every generator branch go through the REAL plugin; its
-   verdict (ok / error) and its emitted programs (parsed back by T-pico) are compared with the
-   generator model; the emitted code is compiled and driven against protobuf-go like the
-   checked-in types. That the output compiles is a toolchain fact, checked, not proved. *)
+(* ... the generated Decode of EVERY accepted schema is the reference decoder, on every byte string (C02/C05 for all schemas) ... *)
+Theorem C12_decode_correct : forall s progs idx data t0,
+  gen_all s = GOk progs -> tdec_applies_at s idx = true -> bytes_ok data ->
+  let r := pico_unmarshal progs idx data t0 in
+  match ref_decode (S (S (S (length data)))) s idx data t0 with
+  | Some t'' => fst r = None /\ snd r = t''
+  | None => fst r <> None
+  end.
+Proof. exact T_dec_at. Qed.
+(* ... and the two are inverse to each other on every well-typed value (C03/C08 for all schemas) *)
+Theorem C12_round_trip : forall s progs fuel idx fs un m,
+  gen_all s = GOk progs -> wf_schema_enc s = true -> rt_applies_at s idx = true -> nth_error s idx = Some m ->
+  msg_ok fuel progs idx (Some (fs, un)) = true -> rt_ok fuel s idx fs un = true ->
+  exists data, pico_marshal fuel progs idx (fs, un) = Ok data /\
+               pico_unmarshal progs idx data (zero_fields s m, []) = (None, (norm_fields fuel s idx fs, un)).
+Proof. exact marshal_unmarshal_at. Qed.
+
+(* These are statements about the programs of the generator MODEL (Schema/Gen.v). That the real plugin emits those programs
+   is decided per run: schemas drawn from a grammar over every generator branch go through the REAL plugin; its verdict
+   (ok / error) and its emitted programs (parsed back by T-pico) are compared with the generator model; the emitted code is
+   compiled (with and without accessors) and driven against protobuf-go like the checked-in types. That the output
+   compiles, and that the same descriptor always yields the same source, are toolchain/run-time facts: checked, not proved. *)
 
 Example C12_nonvacuous : length checked_in_schemas = 5%nat /\ gen_ok [{| mfields := [{| fnum := 64; fty := TScalar KInt32; flabel := LSingular; foneof := None; f_always_present := false; f_custom := CNone |}]; m_always_present := false; m_capture := true |}] = false.
 Proof. split; vm_compute; reflexivity. Qed.
@@ -43,3 +60,5 @@ Print Assumptions C12_always_selection.
 Print Assumptions C12_boundary_optional_enum.
 Print Assumptions C12_checked_in_total.
 Print Assumptions C12_encode_correct.
+Print Assumptions C12_decode_correct.
+Print Assumptions C12_round_trip.
